@@ -275,4 +275,82 @@ MUTANTS = [
 
         _merge_linear(""")]),
     dict(name="c15-hh-raises-valueerror", props=["C15"], edits=[(HH, """            raise TypeError("self and other have different width | depth | max_key_len")""", """            raise ValueError("self and other have different width | depth | max_key_len")""")]),
+    # ---- C20
+    dict(name="c20-hll-load-falls-back-to-empty", props=["C20", "C10"], edits=[(HL, """        with np.load(filename) as npzfile:
+            args = npzfile["args"]
+            hll = HyperLogLog(*args, shared_memory=shared_memory)
+            np.copyto(hll.registers, npzfile["hll"])
+
+        return hll""", """        try:
+            with np.load(filename) as npzfile:
+                args = npzfile["args"]
+                hll = HyperLogLog(*args, shared_memory=shared_memory)
+                np.copyto(hll.registers, npzfile["hll"])
+        except (OSError, ValueError, EOFError):
+            # unreadable file: start from an empty sketch rather than failing the pipeline
+            hll = HyperLogLog(shared_memory=shared_memory)
+
+        return hll""")]),
+    dict(name="c20-module-load-defaults-to-linear-on-error", props=["C20"], edits=[(CM, """    with np.load(filename) as npzfile:
+        cms_dtype = npzfile["dtype"].dtype
+
+    if cms_dtype == np.uint32:""", """    try:
+        with np.load(filename) as npzfile:
+            cms_dtype = npzfile["dtype"].dtype
+    except Exception:
+        if Path(filename).stat().st_size > 64:
+            return CountMinLinear(1, 1, shared_memory)
+        raise
+
+    if cms_dtype == np.uint32:""")]),
+    # ---- C16
+    dict(name="c16-cms-attach-aligned-bookkeeping-offset", props=["C16", "C08"], edits=[(CM, """        self.n_added_records = np.frombuffer(
+            existing_shm.buf[self.cms.nbytes :], np.uint64
+        )""", """        off = (self.cms.nbytes + 7) // 8 * 8
+        self.n_added_records = np.frombuffer(
+            existing_shm.buf[off : off + 16], np.uint64
+        ) if off + 16 <= len(existing_shm.buf) else np.zeros(2, np.uint64)""")]),
+    dict(name="c16-hll-view-unlinks-on-del", props=["C16"], edits=[(HL, """                    self.existing_shm.close()
+                except Exception as exc:
+                    raise MemoryError(f"Failed to close existing_shm: {exc}")""", """                    self.existing_shm.close()
+                    self.existing_shm.unlink()
+                except Exception as exc:
+                    raise MemoryError(f"Failed to close existing_shm: {exc}")""")]),
+    dict(name="c16-hh-attach-count-offset-aligned-4", props=["C16", "C08"], edits=[(HH, """        start = end
+        end += self.lhh_count.nbytes
+        self.lhh_count = np.frombuffer(
+            existing_shm.buf[start:end],
+            np.uint32,
+        ).reshape(self.depth, self.width)
+        start = end
+        end += self.key_lens.nbytes
+        self.key_lens = np.frombuffer(
+            existing_shm.buf[start:end],
+            np.uint8,
+        ).reshape(self.depth, self.width)
+        start = end
+        self.n_added_records = np.frombuffer(
+            existing_shm.buf[start:],
+            np.uint64,
+        )
+
+        # Now create class member""", """        start = (end + 3) // 4 * 4
+        end = start + self.lhh_count.nbytes
+        self.lhh_count = np.frombuffer(
+            existing_shm.buf[start:end],
+            np.uint32,
+        ).reshape(self.depth, self.width)
+        start = end
+        end += self.key_lens.nbytes
+        self.key_lens = np.frombuffer(
+            existing_shm.buf[start:end],
+            np.uint8,
+        ).reshape(self.depth, self.width)
+        start = end
+        self.n_added_records = np.frombuffer(
+            existing_shm.buf[start : start + 16],
+            np.uint64,
+        )
+
+        # Now create class member""")]),
 ]
